@@ -79,4 +79,33 @@ theorem tangentCurveR_rational_quotient (p d : ℕ) (U : ℕ → K) (Pw : List (
     Nat.cast_one, one_mul, Function.iterate_zero, id_eq, Function.iterate_one, Nat.sub_zero, Nat.sub_self] at k0 k1
   exact ⟨hpos, quotient_rule_of_leibniz _ _ _ _ _ _ (ne_of_gt hpos) k0 k1⟩
 
+/-- `operations.tangent` of a RATIONAL surface through the repaired search (op `tansr 1 …`): positive weight polynomial,
+    `S = A / W`, `S_u = (A_u·W − A·W_u) / W²`, `S_v = (A_v·W − A·W_v) / W²` for the span pair found -/
+theorem tangentSurfaceR_rational_quotient (pu pv d : ℕ) (Uu Uv : ℕ → K) (su sv : ℕ) (Pw : List (List K))
+    (hUu : DomOk pu Uu su) (hUv : DomOk pv Uv sv) (hlen : Pw.length = su * sv) (hP : NetOk (d+1) Pw)
+    (hwt : ∀ i, i < Pw.length → 0 < (ptsGet Pw i).getD d 0) (u v : K)
+    (hu1 : Uu pu ≤ u) (hu2 : u ≤ Uu su) (hv1 : Uv pv ≤ v) (hv2 : v ≤ Uv sv) (c : ℕ) (hc : c < d) (W A : K[X][Y])
+    (hW : W = surfSpanPoly pu pv Uu Uv sv Pw (findSpanLinearR pu Uu su u) (findSpanLinearR pv Uv sv v) d)
+    (hA : A = surfSpanPoly pu pv Uu Uv sv Pw (findSpanLinearR pu Uu su u) (findSpanLinearR pv Uv sv v) c) :
+    0 < W.evalEval u v ∧
+    (tangentSurface (ratSurfaceDers (surfaceDersA36R pu pv Uu Uv su sv Pw u v 1) 1)).1.getD c 0
+      = A.evalEval u v / W.evalEval u v ∧
+    (tangentSurface (ratSurfaceDers (surfaceDersA36R pu pv Uu Uv su sv Pw u v 1) 1)).2.1.getD c 0
+      = ((pderivU A).evalEval u v * W.evalEval u v - A.evalEval u v * (pderivU W).evalEval u v) / W.evalEval u v ^ 2 ∧
+    (tangentSurface (ratSurfaceDers (surfaceDersA36R pu pv Uu Uv su sv Pw u v 1) 1)).2.2.getD c 0
+      = ((pderivV A).evalEval u v * W.evalEval u v - A.evalEval u v * (pderivV W).evalEval u v) / W.evalEval u v ^ 2 := by
+  subst hW hA
+  obtain ⟨hpos, k00⟩ := ratSurfaceDersA36R_true pu pv d Uu Uv su sv Pw hUu hUv hlen hP hwt u v hu1 hu2 hv1 hv2 1 0 0 c
+    (by omega) (by omega) hc
+  obtain ⟨_, k10⟩ := ratSurfaceDersA36R_true pu pv d Uu Uv su sv Pw hUu hUv hlen hP hwt u v hu1 hu2 hv1 hv2 1 1 0 c
+    (by omega) (by omega) hc
+  obtain ⟨_, k01⟩ := ratSurfaceDersA36R_true pu pv d Uu Uv su sv Pw hUu hUv hlen hP hwt u v hu1 hu2 hv1 hv2 1 0 1 c
+    (by omega) (by omega) hc
+  simp only [Finset.sum_range_succ, Finset.sum_range_zero, zero_add, Nat.choose_self, Nat.choose_zero_right,
+    Nat.cast_one, one_mul, Function.iterate_zero, id_eq, Function.iterate_one, Nat.sub_zero, Nat.sub_self] at k00 k10 k01
+  have hu := quotient_rule_of_leibniz _ _ _ _ _ _ (ne_of_gt hpos) k00 k10
+  have hv := quotient_rule_of_leibniz _ _ _ _ _ _ (ne_of_gt hpos) k00 k01
+  unfold tangentSurface
+  exact ⟨hpos, hu.1, hu.2, hv.2⟩
+
 end Geomdl
